@@ -90,32 +90,6 @@ fn prim_bits_set_get() {
     let z: Bits = bitvec::array::BitArray::ZERO;
     assert!(!z[j]);
 }
-#[kani::proof]
-#[kani::unwind(131)]
-fn prim_bits_any_fill() {
-    let mut b = any_bits();
-    let b0 = b.clone();
-    let (lo, hi, i): (usize, usize, usize) = (kani::any(), kani::any(), kani::any());
-    kani::assume(lo <= hi && hi <= 128 && i < 128);
-    let any = b[lo..hi].any();
-    if lo <= i && i < hi && b[i] { assert!(any); }
-    if any { let j = b[lo..hi].first_one().unwrap() + lo; assert!(lo <= j && j < hi && b[j]); }
-    b[lo..hi].fill(false);
-    assert!(b[i] == (b0[i] && !(lo <= i && i < hi)));
-}
-#[kani::proof]
-#[kani::unwind(131)]
-fn prim_bits_neighbours() {
-    let b = any_bits();
-    let (t, i): (u8, usize) = (kani::any(), kani::any());
-    kani::assume(t <= 127 && i < 128);
-    let it = || b.iter_ones().map(|a| u8::try_from(a).unwrap());
-    match it().find(|a| *a > t) { Some(n) => { assert!(n > t && b[n as usize]); if (t as usize) < i && i < n as usize { assert!(!b[i]); } } None => if i > t as usize { assert!(!b[i]); } }
-    match it().rev().find(|a| *a < t) { Some(n) => { assert!(n < t && b[n as usize]); if (n as usize) < i && i < t as usize { assert!(!b[i]); } } None => if i < t as usize { assert!(!b[i]); } }
-    match it().next() { Some(n) => { assert!(b[n as usize]); if i < n as usize { assert!(!b[i]); } } None => assert!(!b[i]) }
-    match it().next_back() { Some(n) => { assert!(b[n as usize]); if i > n as usize { assert!(!b[i]); } } None => assert!(!b[i]) }
-}
-
 // ---- VBuf / VBits prims vs managed::ManagedSlice and bitvec::BitSlice::from_slice (src/dp/diagnostics.rs)
 #[kani::proof]
 #[kani::unwind(10)]
